@@ -104,6 +104,9 @@ def gen_obs(tier, scratch, cases):
     for level in levels:
         lifted = os.path.join(scratch, "c02_O%d.c" % level)
         for c in cases:
+            if c["name"].startswith("fp3i_"):
+                continue  # fp immediates become literal-pool data items: the gen runner maps no module data (C01 does); the link-time
+                          # lowering these cases are about is shared by both engines and is decided on the interpreter leg
             uw = dict(GEN_UNWINDSET)
             uw[c["entry"] + ".0"] = 13
             heavy = gen_heavy(c)
@@ -133,6 +136,8 @@ def prepare(tier, scratch):
         n = c["name"]
         if n.startswith("i3_") and any(k in n for k in ("MUL", "DIV", "MOD")):
             solver = "z3"  # also the immediate shapes: MiniSat gave no verdict in 300 s for mul/muls by -1 and by 0x7fffffff
+        if n.startswith("fp3i_"):
+            solver, timeout = "cadical", 600
         if n.startswith(("fp3_", "cv_")):
             # fp arithmetic / conversions through the interpreter: the operands live in the MIR_val_t union, so cbmc --fpa is not
             # usable ("flatten2bv of a non-constant FPA-encoded float is unsupported") and bit-blasted z3 gave no verdict in 900 s
@@ -158,7 +163,7 @@ def prepare(tier, scratch):
                       # h.h's bounded memcpy/memcmp/memset loops (the case code compares 64..96-byte buffers); "function#k" loop names
                       # cannot be resolved in entry-selected binaries (no main), so CBMC loop ids are given directly
                       unwindset={"memcmp.0": 98, "memcpy.0": 14, "memcpy.1": 98, "memset.0": 14, "memset.1": 98, c["entry"] + ".0": 14},
-                      solver=solver, object_bits=10,
+                      solver=solver, object_bits=12,
                       paths=(c["group"] in ("branch", "ovf") or n.startswith("fpb_")),
                       sample="interpreter: " + c["sample"]))
     META["bounds"]["interpreter_leg_obligations_without_verdict_excluded (VERIF_DEEP=1 adds them; the generated-code leg decides the same opcodes)"] = list(DEFERRED)
